@@ -27,6 +27,7 @@
                1 if the Get returns under the round-robin schedule)        *)
 From Coq Require Import ZArith NArith List Bool Arith.
 From Mpc Require Import Gen.Consts Base.Sx Base.Codec Circuit.Circuit Circuit.RunC01 Gmw.Gmw Gmw.Pool Gmw.PoolSync Gmw.GmwReuse.
+From Mpc Require Import Proto.Live Gmw.GmwNet Gen.SkelGmw.
 Import ListNotations.
 Local Open Scope nat_scope.
 
@@ -124,8 +125,51 @@ Definition run_reuse (inp : sx) : sx :=
            SL (map (fun j => ofLB (eval_plain (jc j) (concat (jinputs j)))) jobs) ]
   end.
 
+(* mode 5: the online phase as a network of n parties (GmwNet.v) running the
+   skeleton GENERATED FROM THE SOURCE (Gen/SkelGmw.v) under the round-robin
+   reference schedule (no automatic flushes):
+   input  = (5 n counts h0)
+            counts = AND gates per level, index 0..NumLevels
+            h0     = len(nw.andD) left behind by earlier runs (0: fresh network)
+   output = (done bad flushes)
+            done    = 1: every party finished, all buffers and channels empty
+            bad     = 1: a receive met an item it did not expect
+            flushes = per party, the number of write segments (p2p IOStats.Flushed
+                      of the online connections during Run) *)
+Definition run_net (inp : sx) : sx :=
+  let n := getnat (nthx 1 inp) in
+  let levels := with_lens (getnat (nthx 3 inp)) (getLnat (nthx 2 inp)) in
+  let progs := party_acts skel_gmw_run n levels in
+  let '(s, log) := nrun_log (rr_sched n (total_len n progs)) (ninit n progs) [] in
+  SL [ ofB (ndone n s); ofB (ns_bad s);
+       ofLnat (map (fun p => length (filter (fun e => fst (fst e) =? p) log)) (seq 0 n)) ].
+
+(* mode 6: the write segments of every party by p2p.Conn's buffer rule
+   (GmwNet.party_segs, p2p.writeBufSize from Gen/Consts.v) on the same
+   generated skeleton:
+   input  = (6 n inB counts h0 outB)
+            inB  = bytes of every party's input share ((Bits+7)/8)
+            outB = bytes of the LEADER's output share (as seen on the wire)
+   output = (flushes leader)
+            flushes = per party, the number of write segments
+            leader  = per peer 1..n-1, the byte sizes of the leader's write segments
+   mode 7: same input, output = (flushes) only (networks without a write log) *)
+Definition run_segs (inp : sx) : sx :=
+  let n := getnat (nthx 1 inp) in
+  let inB := getLN (nthx 2 inp) in
+  let levels := with_lens (getnat (nthx 4 inp)) (getLnat (nthx 3 inp)) in
+  let outB := getN (nthx 5 inp) in
+  let dlen := fun t => if t_ph t =? 0 then nth (t_src t) inB 0%N else outB in
+  let segs := map (fun p => party_segs (Z.to_N p2p_writeBufSize) dlen (party_acts skel_gmw_run n levels p)) (seq 0 n) in
+  SL [ ofLnat (map (@length (nat * N)) segs);
+       SL (map (fun j => ofLN (map snd (filter (fun e => fst e =? j) (nth 0 segs []))))
+               (seq 1 (n - 1))) ].
+
 Definition run_c10 (inp : sx) : sx :=
   let mode := getnat (nthx 0 inp) in
+  if mode =? 5 then run_net inp else
+  if mode =? 6 then run_segs inp else
+  if mode =? 7 then SL [nthx 0 (run_segs inp)] else
   if mode =? 2 then run_sync (getnat (nthx 1 inp)) else
   if mode =? 3 then run_levels (circuit_of_sx (nthx 1 inp) (nthx 2 inp)) else
   if mode =? 4 then run_reuse inp else
